@@ -123,3 +123,18 @@ def conform(o, fn: FuncInfo, refs: Sequence[str], what: str, call_hook=None, inl
     o.violated(fn, node or fn.node, f"{what}: code normalises to  {tm.show(t)[:600]}  but the formula is  {tm.show(rts[0])[:600]}",
                construct=tm.show(t)[:400])
     return "different"
+
+
+def snippet_term(stmts, result: str, params: Sequence[str], call_hook=None, inline=None) -> tuple:
+    """Normal form of the value of local `result` after running `stmts` in isolation, as a function of the named
+    free variables `params` (positional: $0, $1, ...).  Used to compare ONE loop of a larger function with a
+    reference spelling of that loop."""
+    import copy
+    fn = ast.FunctionDef(name="_snippet", args=ast.arguments(posonlyargs=[], args=[ast.arg(arg=p) for p in params], vararg=None, kwonlyargs=[], kw_defaults=[], kwarg=None, defaults=[]),
+                         body=[copy.deepcopy(s) for s in stmts] + [ast.Return(value=ast.Name(id=result, ctx=ast.Load()))], decorator_list=[], returns=None, type_comment=None)
+    try:
+        fn.type_params = []
+    except Exception:
+        pass
+    ast.fix_missing_locations(fn)
+    return term_of_node(fn, call_hook, inline)
